@@ -141,6 +141,10 @@ class Models:
         c = canon(x)
         if k == "scalar":
             return {"output": self.num(h("m", c) % 1000)}
+        if k == "abstain":    # a classifier that now and then returns NO label at all ({}: e.g. predict_proba_one right after a reset)
+            if h("abst", c) % 4 == 0:
+                return {}
+            return {self.lab(l): self.num(h("m", l, c) % 1000 + 1) for l in range(1 + h("k", c) % 3)}
         if k == "top2":       # top-2 classifier: every output carries TWO of four labels - label sets of equal size that are not nested
             a = h("t2a", c) % 4
             b = (a + 1 + h("t2b", c) % 3) % 4
@@ -305,3 +309,25 @@ class UniqueStream:
             self.rnd.shuffle(ks)
             x = {k: x[k] for k in ks}
         return x, y
+
+
+class RiverLoss:
+    """A river regression metric handed to an explainer as its loss (the library converts it); `one(y, p)` is the twin: a fresh
+    metric after that single pair."""
+
+    def __init__(self, kind):
+        self.kind, self.max_abs, self.exact = kind, 0.0, False
+
+    def fresh(self):
+        from river import metrics
+        return getattr(metrics, self.kind)()
+
+    def one(self, y, p):
+        m = self.fresh()
+        m.update(y_true=y, y_pred=p.get("output", 0))
+        r = m.get()
+        self.max_abs = max(self.max_abs, abs(float(r)))
+        return r
+
+    def as_argument(self):
+        return self.fresh()
